@@ -21,8 +21,14 @@
 (* (finished_rd / finished_dc): TLC exhibits the silent truncation.  Variant  *)
 (* "fixed" is the repaired code: the end of the file inside a chunk is an     *)
 (* error.                                                                     *)
+(* AllocFail = TRUE lets the environment refuse any allocation the code makes *)
+(* (comp_read's scratch buffer at the start of a call; comp_add_to_dc /       *)
+(* comp_add_to_data / the unit decoder inside the loop).  Variant "oom0" is   *)
+(* the code before the repair of comp_read's `return false` (= 0, "end of the *)
+(* stream") on a refused scratch buffer: TLC exhibits a stream that ends      *)
+(* early with success.  In "fixed" a refused allocation fails the call.       *)
 EXTENDS Naturals, Sequences, FiniteSets, TLC
-CONSTANTS N, Size, MaxRead, Unit, Variant, MaxCalls, Trunc
+CONSTANTS N, Size, MaxRead, Unit, Variant, MaxCalls, Trunc, AllocFail
 
 VARIABLES status,                  \* per chunk
           idx, loc, data, dc, eof, \* comp.data_idx (0 = NULL, N+1 = past the last), data_loc, compressed / decompressed buffers, data_eof
@@ -50,6 +56,15 @@ StartRead == /\ pc = "idle" /\ calls < MaxCalls
              /\ \E n \in 1..MaxRead : want' = n
              /\ pc' = "loop" /\ got' = <<>> /\ frd' = FALSE /\ fdc' = FALSE /\ calls' = calls + 1 /\ lastReq' = 0
              /\ UNCHANGED <<status, idx, loc, data, dc, eof, off, hashBad, out, rets, flen, clean, eosLen>>
+
+\* comp_read's scratch buffer is refused before the loop is entered
+StartReadOom == /\ AllocFail /\ pc = "idle" /\ calls < MaxCalls
+                /\ want' = 1 /\ got' = <<>> /\ frd' = FALSE /\ fdc' = FALSE /\ calls' = calls + 1 /\ lastReq' = 0
+                /\ pc' = "idle" /\ LET r == IF Variant = "oom0" THEN 0 ELSE 0 - 1 IN
+                     /\ rets' = Append(rets, [ret |-> r, req |-> 0, cells |-> <<>>])
+                     /\ clean' = (clean /\ r >= 0)
+                     /\ eosLen' = IF clean /\ r = 0 /\ eosLen = 0 - 1 THEN Len(out) ELSE eosLen
+                /\ UNCHANGED <<status, idx, loc, data, dc, eof, off, hashBad, out, flen>>
 
 \* zck_get_chunk_data(i): reset and position, then comp_read(size of the chunk)
 StartGet == /\ pc = "idle" /\ calls < MaxCalls
@@ -116,7 +131,12 @@ Loop ==
                /\ hashBad' = (hashBad \/ \E k \in 1..rb : ChunkOf(off + k - 1) # idx)      \* bytes of another chunk under this chunk's checksum
                /\ UNCHANGED <<status, idx, dc, eof, pc, want, got, fdc, out, rets, calls, lastReq, flen, clean, eosLen>>
 
-Next == StartRead \/ StartGet \/ Loop \/ (pc = "idle" /\ calls = MaxCalls /\ UNCHANGED vars)
+\* a refused allocation inside the loop (moving bytes into the compressed / decompressed buffer, decoding a unit): the call fails
+LoopOom == /\ AllocFail /\ pc = "loop" /\ Len(got) < want /\ dc = <<>> /\ ~fdc /\ ~eof /\ idx \in 1..N
+           /\ Finish(0 - 1)
+           /\ UNCHANGED <<status, idx, loc, data, dc, eof, off, hashBad, want, got, frd, fdc, calls, lastReq, flen>>
+
+Next == StartRead \/ StartReadOom \/ StartGet \/ Loop \/ LoopOom \/ (pc = "idle" /\ calls = MaxCalls /\ UNCHANGED vars)
 Spec == Init /\ [][Next]_vars /\ WF_vars(Loop)
 
 \* ---- properties
@@ -127,7 +147,9 @@ NoReleaseBeforeVerify == Unit => \A k \in 1..Len(out) : ~IsBad(out[k])
 AllOk == (\A c \in Chunks : status[c] = "ok") /\ flen = N * Size          \* a valid file: every chunk intact and all of it there
 HistoryIndependence == AllOk => \A k \in 1..Len(rets) : rets[k].req # 0 => (rets[k].ret = Size /\ rets[k].cells = Content(rets[k].req))
 \* C02 (sequential reads only): what successful reads delivered is a prefix of the content, in order
-SequentialPrefix == (AllOk /\ \A k \in 1..Len(rets) : rets[k].req = 0) =>
+\* (a call that failed - possible on a valid file only when an allocation was refused - ends the obligation: C02 speaks of
+\* executions in which every call succeeded)
+SequentialPrefix == (AllOk /\ \A k \in 1..Len(rets) : rets[k].req = 0 /\ rets[k].ret >= 0) =>
                        \A k \in 1..Len(out) : out[k] = Cell(((k - 1) \div Size) + 1, ((k - 1) % Size) + 1)
 \* C02: the end of the stream is reported to a sequential reader only after every cell the index promises was delivered
 \* (a truncated file, or an index promising more than the file holds, is never read "to the end" with success)
